@@ -7,7 +7,7 @@
 From Coq Require Import List NArith Bool.
 From Verif Require Import lib.Quote model.ExSyntax model.ExLexer model.ExParser model.ExPrinter model.ExScanner
   model.ExRefactor model.ExTemplate proofs.ExPrintProofs proofs.ExRoundtrip proofs.ExScannerProofs
-  proofs.ExRefactorProofs proofs.ExRender proofs.ExC11.
+  proofs.ExRefactorProofs proofs.ExRender proofs.ExParserTotal proofs.ExC11.
 Import ListNotations.
 Open Scope N_scope.
 
@@ -109,3 +109,11 @@ Theorem c11_roundtrip_refuted :
        exists ts', lex (print lower printable t) = LOk ts' /\ parse_tokens ts' = PSyntax).
 Proof. exact roundtrip_refuted. Qed.
 Print Assumptions c11_roundtrip_refuted.
+
+(* Totality of the parser model: for EVERY token list the fuel parse_tokens passes (6 * length + 10) is enough — the
+   model never answers "out of fuel"; so "accepted by the models" (the hypothesis parse_tokens ts = POk t of the
+   theorems above) excludes nothing but syntax errors and literals outside the code-point model. *)
+Theorem c11_parse_total : forall ts,
+  (exists t, parse_tokens ts = POk t) \/ parse_tokens ts = PSyntax \/ parse_tokens ts = POutside.
+Proof. exact parse_total_stmt. Qed.
+Print Assumptions c11_parse_total.
